@@ -3,6 +3,7 @@
 //
 //	classify      case (codec gopon ((channel payload) ...))        -> (kinds pushed)
 //	classify_flv  case (gopon ((tagtype timestamp data) ...))       -> (kinds pushed origs)
+//	flv_producer  see producer.go
 //
 // kinds: per packet the slot the cache put it in, found by probing a cache pre-loaded with known
 // parameter-set packets and a key packet: 0 ignored, 1 appended to the GOP, 2 restarted the GOP
@@ -136,7 +137,10 @@ func flvKind(t *flv.Tag) int64 {
 	if !ok {
 		return -1
 	}
-	same := func(a interface{}, b queue.Elem) bool { bt, _ := b.(*flv.Tag); return bt != nil && a.(*flv.Tag).StreamID == bt.StreamID }
+	same := func(a interface{}, b queue.Elem) bool {
+		bt, _ := b.(*flv.Tag)
+		return bt != nil && a.(*flv.Tag).StreamID == bt.StreamID
+	}
 	return slotOf(base, pushed(c), same, &x, key, 3)
 }
 
@@ -199,5 +203,6 @@ func Commands() map[string]func(Val) Val {
 		}
 		return L(L(kinds...), L(out...), L(origs...))
 	}
+	m["flv_producer"] = flvProducer
 	return m
 }
